@@ -423,3 +423,169 @@ Example c06_termination_nonvacuous :
           {| l_count := 2; l_clusters := 2; l_increase := 0 |}],
          (Some (1 # 36), 2%nat)).
 Proof. split; [vm_compute; reflexivity|]. split; vm_compute; reflexivity. Qed.
+
+(** * 7. Leiden.fit: the label step of _aggregate_refine, the objective across a refined aggregation, and
+      termination of the outer loop (Model/Leiden.v, Proofs/LeidenProofs.v) *)
+From SKN Require Import Model.Leiden Proofs.LeidenProofs.
+Set Warnings "-notation-overridden". (* keep: a line with a parenthesis after the imports *)
+Local Open Scope Q_scope.
+
+(** ** 7.1 [labels_ = membership_refined.T.tocsr().dot(membership).indices]
+    [Model.Leiden.aggregate_refine_labels] is the step as coded (matrix product, column indices of the stored
+    entries); the model of Leiden.fit ([leiden_loop]) uses [coarse_of_refined] (coarse label of the first
+    listed member of each refined cluster). For EVERY oracle meeting [refine_contract], at every level:
+    the coded step returns exactly [coarse_of_refined] — one entry per aggregated node; the aggregated node
+    [rho y] gets the coarse label of y whichever member y of the refined cluster is taken; so composing a
+    membership with [labels_refined] and then with these labels gives the coarse label of the level, node
+    by node (the coarse partition of the aggregated graph is the coarse partition of the original nodes). *)
+Theorem leiden_aggregate_refine_labels (refine : nat -> wgraph -> list nat -> list nat) (count : nat)
+        (g : wgraph) (labels : list nat) :
+  refine_contract refine -> wf_wgraph g -> length labels = length g -> (0 < length g)%nat ->
+  let rho := Louvain.unique_inverse (refine count g labels) in
+  let k := n_labels rho in
+  let labels' := coarse_of_refined labels rho k in
+  aggregate_refine_labels (map Z.of_nat labels) (map Z.of_nat rho) = Clustering.Ok (k, n_labels labels, labels') /\
+  length labels' = k /\
+  (forall y, (y < length g)%nat -> (lab rho y < k)%nat /\ lab labels' (lab rho y) = lab labels y) /\
+  (forall membership, (forall c, In c membership -> (c < length g)%nat) ->
+     map (nthn labels') (map (fun c => nthn rho c) membership) = map (fun c => nthn labels c) membership).
+Proof. exact (leiden_aggregate_refine_labels_ok refine count g labels). Qed.
+Print Assumptions leiden_aggregate_refine_labels.
+
+(** ** 7.2 Refinement does not change the objective of the coarse partition
+    (aggregate_preserves_objective of section 3 instantiated at the refined labels, composed with 7.1). *)
+Theorem leiden_aggregation_preserves_objective (refine : nat -> wgraph -> list nat -> list nat) (count : nat)
+        (g : wgraph) (labels : list nat) (ows iws : list Q) (res : Q) :
+  refine_contract refine -> wf_wgraph g -> length labels = length g -> (0 < length g)%nat ->
+  let rho := Louvain.unique_inverse (refine count g labels) in
+  let k := n_labels rho in
+  objective (aggregate_graph g rho k) (cluster_sums k rho ows) (cluster_sums k rho iws) res
+            (coarse_of_refined labels rho k)
+  == objective g ows iws res labels.
+Proof. exact (leiden_aggregation_preserves_objective_pf refine count g labels ows iws res). Qed.
+Print Assumptions leiden_aggregation_preserves_objective.
+
+(** ** 7.3 Leiden.fit terminates for tol_optimization > 0 and tol_aggregation > 0
+    The node-count argument of 6.3 does not apply: the graph is aggregated by the REFINED partition, which
+    need not lose a node when the coarse pass gained. Instead: an aggregation that does not stop the loop
+    has increase > tol_aggregation, the increase is the gain of the objective of the coarse partition read
+    on the original nodes (7.1, 7.2), and that objective is bounded by B: at most
+    pass_fuel B Q0 tol_aggregation = ceil((B - Q0) / tol_aggregation) + 1 aggregations, Q0 the objective of
+    the singleton partition. For EVERY refinement oracle meeting the contract; [n_aggregations] plays no role. *)
+Theorem leiden_fit_terminates (refine : nat -> wgraph -> list nat -> list nat)
+        (fuel kfuel : nat) (kind : modkind) (res tol_opt tol_agg : Q) (n_agg : Z)
+        (m : wmat) (fb : bool) (index : option (list nat)) (p : prep) (B : Q) :
+  refine_contract refine ->
+  pre_processing kind m fb index = MOk p ->
+  0 < tol_opt -> 0 < tol_agg ->
+  (forall l, objective (p_adj p) (p_out p) (p_in p) res l <= B) ->
+  (pass_fuel B (objective (p_adj p) (p_out p) (p_in p) res (seq 0 (length (p_adj p)))) tol_opt <= kfuel)%nat ->
+  (pass_fuel B (objective (p_adj p) (p_out p) (p_in p) res (seq 0 (length (p_adj p)))) tol_agg <= fuel)%nat ->
+  exists r, leiden_loop fuel kfuel res tol_opt tol_agg n_agg refine (p_adj p) (p_out p) (p_in p)
+                        (seq 0 (length (p_adj p))) (seq 0 (length (p_adj p))) 0 [] marg0 = MOk r.
+Proof. exact (leiden_loop_fit_terminates refine fuel kfuel kind res tol_opt tol_agg n_agg m fb index p B). Qed.
+Print Assumptions leiden_fit_terminates.
+
+(** With [louvain_objective_bounded] (non-negative working adjacency, resolution >= 0): B = 1. *)
+Theorem leiden_fit_terminates_nonnegative (refine : nat -> wgraph -> list nat -> list nat)
+        (fuel kfuel : nat) (kind : modkind) (res tol_opt tol_agg : Q) (n_agg : Z)
+        (m : wmat) (fb : bool) (index : option (list nat)) (p : prep) :
+  refine_contract refine ->
+  pre_processing kind m fb index = MOk p ->
+  let g1 := working_graph kind m fb index in
+  (forall i j, (i < length g1)%nat -> (j < length g1)%nat -> 0 <= entry g1 i j) ->
+  0 <= res ->
+  0 < tol_opt -> 0 < tol_agg ->
+  (pass_fuel 1 (objective (p_adj p) (p_out p) (p_in p) res (seq 0 (length (p_adj p)))) tol_opt <= kfuel)%nat ->
+  (pass_fuel 1 (objective (p_adj p) (p_out p) (p_in p) res (seq 0 (length (p_adj p)))) tol_agg <= fuel)%nat ->
+  exists r, leiden_loop fuel kfuel res tol_opt tol_agg n_agg refine (p_adj p) (p_out p) (p_in p)
+                        (seq 0 (length (p_adj p))) (seq 0 (length (p_adj p))) 0 [] marg0 = MOk r.
+Proof. exact (leiden_loop_fit_terminates_nonneg refine fuel kfuel kind res tol_opt tol_agg n_agg m fb index p). Qed.
+Print Assumptions leiden_fit_terminates_nonnegative.
+
+(** The whole of fit, with both fuels computed from its arguments:
+    [leiden_kfuel] = [louvain_kfuel] (pass_fuel (objective_bound ..) Q0 tol_optimization),
+    [leiden_fuel] = pass_fuel (objective_bound ..) Q0 tol_aggregation, on the pre-processed input. *)
+Theorem leiden_fit_never_out_of_fuel (refine : nat -> wgraph -> list nat -> list nat)
+        (fuel kfuel : nat) (kind : modkind) (res tol_opt tol_agg : Q) (n_agg : Z)
+        (sort_clusters : bool) (m : wmat) (fb : bool) (index : option (list nat)) :
+  refine_contract refine ->
+  0 < tol_opt -> 0 < tol_agg ->
+  (leiden_kfuel kind res tol_opt m fb index <= kfuel)%nat ->
+  (leiden_fuel kind res tol_agg m fb index <= fuel)%nat ->
+  leiden_fit fuel kfuel kind res tol_opt tol_agg n_agg sort_clusters refine m fb index <> MErr MOutOfFuel.
+Proof.
+  exact (leiden_fit_never_out_of_fuel_pf refine fuel kfuel kind res tol_opt tol_agg n_agg sort_clusters m fb index).
+Qed.
+Print Assumptions leiden_fit_never_out_of_fuel.
+
+(** leiden_increase_total without the "model returns" hypothesis. *)
+Theorem leiden_increase_total_unconditional (refine : nat -> wgraph -> list nat -> list nat)
+        (fuel kfuel : nat) (kind : modkind) (res tol_opt tol_agg : Q) (n_agg : Z)
+        (m : wmat) (fb : bool) (index : option (list nat)) (p : prep) :
+  refine_contract refine ->
+  pre_processing kind m fb index = MOk p ->
+  0 < tol_opt -> 0 < tol_agg ->
+  (leiden_kfuel kind res tol_opt m fb index <= kfuel)%nat ->
+  (leiden_fuel kind res tol_agg m fb index <= fuel)%nat ->
+  exists r,
+    leiden_loop fuel kfuel res tol_opt tol_agg n_agg refine (p_adj p) (p_out p) (p_in p)
+                (seq 0 (length (p_adj p))) (seq 0 (length (p_adj p))) 0 [] marg0 = MOk r /\
+    let obj := objective (p_adj p) (p_out p) (p_in p) res in
+    let g1 := working_graph kind m fb index in
+    obj (r_membership r) - obj (seq 0 (length (p_adj p))) == log_total (r_log r) /\
+    0 <= log_total (r_log r) /\
+    log_nonneg (r_log r) /\
+    length (r_membership r) = length g1 /\
+    (forall u v, (u < length g1)%nat -> (v < length g1)%nat ->
+       lab (r_membership r) u = lab (r_membership r) v -> connected g1 u v).
+Proof. exact (leiden_fit_core_unconditional refine fuel kfuel kind res tol_opt tol_agg n_agg m fb index p). Qed.
+Print Assumptions leiden_increase_total_unconditional.
+
+(** ** 7.4 The two cases left out by 7.3
+    n_aggregations >= 1: the test [count == n_aggregations] stops the loop whatever tol_aggregation is
+    (tol_optimization > 0 is still needed for the kernel): n_aggregations iterations. *)
+Theorem leiden_fit_terminates_n_aggregations (refine : nat -> wgraph -> list nat -> list nat)
+        (fuel kfuel : nat) (kind : modkind) (res tol_opt tol_agg : Q) (n_agg : Z)
+        (m : wmat) (fb : bool) (index : option (list nat)) (p : prep) :
+  refine_contract refine ->
+  pre_processing kind m fb index = MOk p ->
+  0 < tol_opt -> (1 <= n_agg)%Z ->
+  (leiden_kfuel kind res tol_opt m fb index <= kfuel)%nat ->
+  (Z.to_nat n_agg <= fuel)%nat ->
+  exists r, leiden_loop fuel kfuel res tol_opt tol_agg n_agg refine (p_adj p) (p_out p) (p_in p)
+                        (seq 0 (length (p_adj p))) (seq 0 (length (p_adj p))) 0 [] marg0 = MOk r.
+Proof. exact (leiden_loop_fit_terminates_n_agg refine fuel kfuel kind res tol_opt tol_agg n_agg m fb index p). Qed.
+Print Assumptions leiden_fit_terminates_n_aggregations.
+
+(** tol_aggregation >= 0, in particular 0, in EXACT arithmetic: a continuing aggregation strictly increases
+    the objective of the coarse partition of the n original nodes, which takes at most n^n values: n^n + 1
+    aggregations. PARTIAL with respect to the property: exact-rational model only (in the float32 kernel an
+    accepted "gain" can be rounding noise, known finding D32); the bound is only meant as a statement. *)
+Theorem leiden_fit_terminates_tol0_partial (refine : nat -> wgraph -> list nat -> list nat)
+        (fuel kfuel : nat) (kind : modkind) (res tol_opt tol_agg : Q) (n_agg : Z)
+        (m : wmat) (fb : bool) (index : option (list nat)) (p : prep) :
+  refine_contract refine ->
+  pre_processing kind m fb index = MOk p ->
+  0 < tol_opt -> 0 <= tol_agg ->
+  (leiden_kfuel kind res tol_opt m fb index <= kfuel)%nat ->
+  (S (length (p_adj p) ^ length (p_adj p)) <= fuel)%nat ->
+  exists r, leiden_loop fuel kfuel res tol_opt tol_agg n_agg refine (p_adj p) (p_out p) (p_in p)
+                        (seq 0 (length (p_adj p))) (seq 0 (length (p_adj p))) 0 [] marg0 = MOk r.
+Proof. exact (leiden_loop_fit_terminates_tol0_partial refine fuel kfuel kind res tol_opt tol_agg n_agg m fb index p). Qed.
+Print Assumptions leiden_fit_terminates_tol0_partial.
+
+(** Non-vacuity: on the house graph with tol_optimization = tol_aggregation = 1/100 the computed fuels are
+    120 passes and 120 aggregations; with the oracle that refines nothing (it meets the contract:
+    c06_leiden_nonvacuous) fit returns with them; and the coded label step on the first level's answer
+    (coarse labels 0,0,1,1,0, every node its own refined cluster) returns the coarse labels themselves. *)
+Example c06_leiden_termination_nonvacuous :
+  leiden_kfuel Dugue 1 (1 # 100) ex_house false None = 120%nat /\
+  leiden_fuel Dugue 1 (1 # 100) ex_house false None = 120%nat /\
+  (exists log mg, leiden_fit 120 120 Dugue 1 (1 # 100) (1 # 100) (-1) true (fun _ g _ => seq 0 (length g))
+                             ex_house false None = MOk ([0; 0; 1; 1; 0]%nat, log, mg)) /\
+  aggregate_refine_labels [0; 0; 1; 1; 0]%Z [0; 1; 2; 3; 4]%Z = Clustering.Ok (5%nat, 2%nat, [0; 0; 1; 1; 0]%nat).
+Proof.
+  split; [vm_compute; reflexivity|]. split; [vm_compute; reflexivity|].
+  split; [eexists; eexists; vm_compute; reflexivity|vm_compute; reflexivity].
+Qed.
